@@ -443,7 +443,177 @@ class _FuncEval:
     def _exit(self, kind: str, value: Term, st: State, node: ast.AST) -> None:
         self.s.exits.append(Exit(kind, value, st.cond, node, tuple(self.loop_stack)))
 
+    # ---- second-chance normal form: a private helper whose loop returns from inside (see DESIGN A.2 item 8)
+    def _expand_loop_helper(self, s: ast.AST, st: State) -> Optional[list]:
+        """`x = H(args)` / `if not H(args): S` where the private helper H is `prefix; loop; return ...` with returns inside the
+        loop, rewritten to the equivalent caller-local statements (the loop with `break`s), or None.
+          T1  every return (inside the loop and the trailing one) returns the same local name E:
+                  x = H(a)            ==>   prefix; loop[return E -> break]; x = E
+          T2  the returns inside the loop are `return True`, the trailing one `return False`:
+                  if not H(a): S      ==>   prefix; loop[return True -> break] else: S
+        Both are equivalences of Python's control flow (nothing executes between leaving the loop and the trailing return)."""
+        import copy
+        if not self.ev.deep_inline_in:
+            return None
+        call = None
+        mode = None
+        if isinstance(s, ast.Assign) and len(s.targets) == 1 and isinstance(s.targets[0], ast.Name) and isinstance(s.value, ast.Call):
+            call, mode = s.value, "T1"
+        elif isinstance(s, ast.If) and not s.orelse and isinstance(s.test, ast.UnaryOp) and isinstance(s.test.op, ast.Not) and \
+                isinstance(s.test.operand, ast.Call):
+            call, mode = s.test.operand, "T2"
+        if call is None or any(isinstance(a, ast.Starred) for a in call.args) or any(k.arg is None for k in call.keywords):
+            return None
+        # resolve the callee without evaluating anything that could record a call
+        f = None
+        recv_expr = None
+        fn = call.func
+        if isinstance(fn, ast.Name):
+            v = st.env.get(fn.id)
+            if v is None:
+                r = self.prog.resolve_name(self.m, fn.id)
+                t = self.ref_to_term(r) if r is not None else None
+                if t is not None and t[0] == "func":
+                    f = self.prog.functions.get(t[1])
+        elif isinstance(fn, ast.Attribute) and isinstance(fn.value, ast.Name):
+            recv = self.name(fn.value.id, st)
+            b = self.attr(recv, fn.attr, fn)
+            if b[0] == "func":
+                f = self.prog.functions.get(b[1])
+            else:
+                res = self.resolve_method(recv, fn.attr)
+                if res is not None:
+                    f = res[0]
+                    if f.kind != "staticmethod":
+                        recv_expr = fn.value
+            if f is not None and f.kind in ("method", "classmethod") and recv_expr is None and recv[0] in ("self", "clsparam", "param"):
+                recv_expr = fn.value
+        if f is None or isinstance(f.node, ast.Lambda) or f.module is not self.m or not self._deep(f):
+            return None
+        if not (f.name.startswith("_") and not f.name.startswith("__")) or f.nested or f.nested_classes or f.kind in ("property", "cached_property"):
+            return None
+        a = f.node.args
+        if a.vararg or a.kwarg or a.posonlyargs:
+            return None
+        body = [b for b in f.node.body if not (isinstance(b, ast.Expr) and isinstance(b.value, ast.Constant))]
+        if len(body) < 2 or not isinstance(body[-1], ast.Return) or not isinstance(body[-2], (ast.For, ast.While)) or body[-2].orelse:
+            return None
+        loop, tail, prefix = body[-2], body[-1], body[:-2]
+        if any(isinstance(n, (ast.Return, ast.Yield, ast.YieldFrom, ast.Await, ast.FunctionDef, ast.Lambda, ast.ClassDef, ast.Global,
+                              ast.Nonlocal)) for p_ in prefix for n in ast.walk(p_)):
+            return None
+        # returns inside the loop: only directly in this loop (not in a nested loop, where `break` would leave the wrong one)
+        rets: list = []
+
+        def scan(stmts, in_nested_loop):
+            for x in stmts:
+                if isinstance(x, ast.Return):
+                    if in_nested_loop:
+                        raise ValueError
+                    rets.append(x)
+                elif isinstance(x, (ast.For, ast.While)):
+                    scan(x.body, True)
+                    scan(x.orelse, True)
+                elif isinstance(x, ast.If):
+                    scan(x.body, in_nested_loop)
+                    scan(x.orelse, in_nested_loop)
+                elif isinstance(x, ast.Try):
+                    if x.finalbody:
+                        raise ValueError
+                    scan(x.body, in_nested_loop)
+                    scan(x.orelse, in_nested_loop)
+                    for h in x.handlers:
+                        scan(h.body, in_nested_loop)
+                elif isinstance(x, ast.With):
+                    raise ValueError
+                elif isinstance(x, (ast.FunctionDef, ast.ClassDef)):
+                    raise ValueError
+        try:
+            scan(loop.body, False)
+        except ValueError:
+            return None
+        if not rets or any(isinstance(n, (ast.Yield, ast.YieldFrom, ast.Await, ast.Lambda)) for n in ast.walk(loop)):
+            return None
+
+        def same_name(x, y):
+            return isinstance(x, ast.Name) and isinstance(y, ast.Name) and x.id == y.id
+
+        def is_const(x, v):
+            return isinstance(x, ast.Constant) and x.value is v
+        if mode == "T1":
+            if not (isinstance(tail.value, ast.Name) and all(r.value is not None and same_name(r.value, tail.value) for r in rets)):
+                return None
+        else:
+            if not (is_const(tail.value, False) and all(is_const(r.value, True) for r in rets)):
+                return None
+        # bind parameters, rename the helper's locals apart
+        params = [p_.arg for p_ in a.args + a.kwonlyargs]
+        locals_ = set(params)
+        for n in ast.walk(f.node):
+            if isinstance(n, ast.Name) and isinstance(n.ctx, (ast.Store, ast.Del)):
+                locals_.add(n.id)
+        self.ev._expand_counter = getattr(self.ev, "_expand_counter", 0) + 1
+        suffix = f"__{f.name.strip('_')}{self.ev._expand_counter}"
+
+        class Ren(ast.NodeTransformer):
+            def visit_Name(self, n):
+                if n.id in locals_:
+                    return ast.copy_location(ast.Name(id=n.id + suffix, ctx=n.ctx), n)
+                return n
+
+        class Ret2Break(ast.NodeTransformer):
+            def visit_Return(self, n):
+                return ast.copy_location(ast.Break(), n)
+
+            def visit_For(self, n):  # only the outer loop's own returns exist (checked above); nested loops have none
+                return self.generic_visit(n)
+        given: dict = {}
+        pos = list(a.args)
+        args = list(call.args)
+        if recv_expr is not None:
+            if not pos:
+                return None
+            given[pos[0].arg] = recv_expr
+            pos = pos[1:]
+        if len(args) > len(pos):
+            return None
+        for p_, v in zip(pos, args):
+            given[p_.arg] = v
+        for k in call.keywords:
+            if k.arg in given or k.arg not in params:
+                return None
+            given[k.arg] = k.value
+        defaults = {}
+        for p_, d in zip(a.args[len(a.args) - len(a.defaults):], a.defaults):
+            defaults[p_.arg] = d
+        for p_, d in zip(a.kwonlyargs, a.kw_defaults):
+            if d is not None:
+                defaults[p_.arg] = d
+        out: list = []
+        for p_ in params:
+            v = given.get(p_, defaults.get(p_))
+            if v is None:
+                return None
+            out.append(ast.copy_location(ast.Assign(targets=[ast.Name(id=p_ + suffix, ctx=ast.Store())], value=v), call))
+        for x in prefix:
+            out.append(Ren().visit(copy.deepcopy(x)))
+        new_loop = Ret2Break().visit(Ren().visit(copy.deepcopy(loop)))
+        if mode == "T1":
+            out.append(new_loop)
+            out.append(ast.copy_location(ast.Assign(targets=[s.targets[0]], value=ast.Name(id=tail.value.id + suffix, ctx=ast.Load())), s))
+        else:
+            new_loop.orelse = list(s.body)
+            out.append(new_loop)
+        for x in out:
+            ast.fix_missing_locations(x)
+        self.ev.deep_inlined.add(f.qual)
+        return out
+
     def stmt(self, s: ast.AST, st: State) -> Optional[State]:
+        if self.ev.deep_inline_in and isinstance(s, (ast.Assign, ast.If)):
+            blk = self._expand_loop_helper(s, st)
+            if blk is not None:
+                return self.block(blk, st)
         if isinstance(s, ast.Expr):
             if isinstance(s.value, ast.Constant):
                 return st  # docstring / ellipsis
